@@ -98,7 +98,7 @@ def cmd_run(names, tier, also):
             json.dump(meta, open(os.path.join(d, "meta.json"), "w"), indent=1)
         finally:
             drop(wt)
-    shutil.rmtree(os.path.join(VERIF, "replays"), ignore_errors=True)
+    shutil.rmtree(os.path.join(VERIF, "replays_scratch"), ignore_errors=True)
     write_results()
 
 
